@@ -412,6 +412,23 @@ func ruleMapOrder(c *Ctx, r *R) {
 				}
 				nNew++
 				g := resolveFuncValue(call.Call.Args[0], 0)
+				if g != nil && strings.HasSuffix(g.Name(), "$thunk") && len(g.Blocks) == 1 {
+					// a method expression (valueAndIndex[U].before): the method the thunk forwards its parameters to, in order
+					for _, tin := range g.Blocks[0].Instrs {
+						if tc, ok := tin.(*ssa.Call); ok && len(tc.Call.Args) == len(g.Params) {
+							inOrder := true
+							for k, a := range tc.Call.Args {
+								if a != ssa.Value(g.Params[k]) {
+									inOrder = false
+								}
+							}
+							if t := origin(tc.Call.StaticCallee()); t != nil && t.Blocks != nil && inOrder {
+								g = t
+								break
+							}
+						}
+					}
+				}
 				if g == nil || len(g.Params) != 2 {
 					return
 				}
@@ -456,6 +473,31 @@ func ruleMapOrder(c *Ctx, r *R) {
 						}
 					}
 					okNum = zero && step && len(phi.Edges) == 2
+				}
+				// the counter is a captured variable of a tagging function (iterator.Map(iter, func(item T) valueAndIndex[T]
+				// { tagged := …{idx: nextIdx}; nextIdx++; return tagged })): set to 0 once, outside, and incremented by one
+				// exactly once, in the block that tags, after the tag was taken
+				if ld, ok := st.Val.(*ssa.UnOp); ok && ld.Op == token.MUL {
+					if cell := cellOf(ld.X); cell != nil && isIntType(ld.Type()) {
+						zero, incs, other := 0, 0, 0
+						for _, s2 := range storesTo(cell) {
+							if isConstInt(s2.Val, 0) && s2.Parent() == cell.Parent() {
+								zero++
+								continue
+							}
+							add, ok := s2.Val.(*ssa.BinOp)
+							if ok && add.Op == token.ADD && isConstInt(add.Y, 1) && s2.Block() == st.Block() && idxIn(s2) > idxIn(st) {
+								if l2, ok := add.X.(*ssa.UnOp); ok && l2.Op == token.MUL && cellOf(l2.X) == cell {
+									incs++
+									continue
+								}
+							}
+							other++
+						}
+						if zero == 1 && incs == 1 && other == 0 && st.Block() == st.Parent().Blocks[0] {
+							okNum = true
+						}
+					}
 				}
 			})
 		}
@@ -936,7 +978,7 @@ func mapChansOf(c *Ctx, root string) mapChans {
 	}
 	if mc.ready != nil {
 		instrs(fn, func(b *ssa.BasicBlock, i int, in ssa.Instruction) {
-			if st, ok := in.(*ssa.Store); ok && loadCell(st.Val) == mc.ready {
+			if st, ok := in.(*ssa.Store); ok && loadCell(stripChange(st.Val)) == mc.ready { // (the field may be directional)
 				if _, f, ok := storedField(st.Addr); ok {
 					mc.readyField = f
 				}
